@@ -25,6 +25,12 @@ pub fn reim_add_avx2_fma(res: &mut [f64], a: &[f64], b: &[f64]) {
         assert_eq!(b.len(), res.len());
     }
 
+    // Fewer elements than a whole number of 256-bit vectors (ring degrees below the lane count):
+    // the vector loop below would leave the remainder untouched, so use the scalar kernel.
+    if !res.len().is_multiple_of(4) {
+        return poulpy_cpu_ref::reference::fft64::reim::reim_add_ref(res, a, b);
+    }
+
     use std::arch::x86_64::{__m256d, _mm256_add_pd, _mm256_loadu_pd, _mm256_storeu_pd};
 
     let span: usize = res.len() >> 2;
@@ -54,6 +60,12 @@ pub fn reim_add_assign_avx2_fma(res: &mut [f64], a: &[f64]) {
         assert_eq!(a.len(), res.len());
     }
 
+    // Fewer elements than a whole number of 256-bit vectors (ring degrees below the lane count):
+    // the vector loop below would leave the remainder untouched, so use the scalar kernel.
+    if !res.len().is_multiple_of(4) {
+        return poulpy_cpu_ref::reference::fft64::reim::reim_add_assign_ref(res, a);
+    }
+
     use std::arch::x86_64::{__m256d, _mm256_add_pd, _mm256_loadu_pd, _mm256_storeu_pd};
 
     let span: usize = res.len() >> 2;
@@ -80,6 +92,12 @@ pub fn reim_sub_avx2_fma(res: &mut [f64], a: &[f64], b: &[f64]) {
     {
         assert_eq!(a.len(), res.len());
         assert_eq!(b.len(), res.len());
+    }
+
+    // Fewer elements than a whole number of 256-bit vectors (ring degrees below the lane count):
+    // the vector loop below would leave the remainder untouched, so use the scalar kernel.
+    if !res.len().is_multiple_of(4) {
+        return poulpy_cpu_ref::reference::fft64::reim::reim_sub_ref(res, a, b);
     }
 
     use std::arch::x86_64::{__m256d, _mm256_loadu_pd, _mm256_storeu_pd, _mm256_sub_pd};
@@ -111,6 +129,12 @@ pub fn reim_sub_assign_avx2_fma(res: &mut [f64], a: &[f64]) {
         assert_eq!(a.len(), res.len());
     }
 
+    // Fewer elements than a whole number of 256-bit vectors (ring degrees below the lane count):
+    // the vector loop below would leave the remainder untouched, so use the scalar kernel.
+    if !res.len().is_multiple_of(4) {
+        return poulpy_cpu_ref::reference::fft64::reim::reim_sub_assign_ref(res, a);
+    }
+
     use std::arch::x86_64::{__m256d, _mm256_loadu_pd, _mm256_storeu_pd, _mm256_sub_pd};
 
     let span: usize = res.len() >> 2;
@@ -136,6 +160,12 @@ pub fn reim_sub_negate_assign_avx2_fma(res: &mut [f64], a: &[f64]) {
     #[cfg(debug_assertions)]
     {
         assert_eq!(a.len(), res.len());
+    }
+
+    // Fewer elements than a whole number of 256-bit vectors (ring degrees below the lane count):
+    // the vector loop below would leave the remainder untouched, so use the scalar kernel.
+    if !res.len().is_multiple_of(4) {
+        return poulpy_cpu_ref::reference::fft64::reim::reim_sub_negate_assign_ref(res, a);
     }
 
     use std::arch::x86_64::{__m256d, _mm256_loadu_pd, _mm256_storeu_pd, _mm256_sub_pd};
@@ -165,6 +195,12 @@ pub fn reim_negate_avx2_fma(res: &mut [f64], a: &[f64]) {
         assert_eq!(a.len(), res.len());
     }
 
+    // Fewer elements than a whole number of 256-bit vectors (ring degrees below the lane count):
+    // the vector loop below would leave the remainder untouched, so use the scalar kernel.
+    if !res.len().is_multiple_of(4) {
+        return poulpy_cpu_ref::reference::fft64::reim::reim_negate_ref(res, a);
+    }
+
     use std::arch::x86_64::{__m256d, _mm256_loadu_pd, _mm256_storeu_pd, _mm256_xor_pd};
 
     let span: usize = res.len() >> 2;
@@ -190,6 +226,12 @@ pub fn reim_negate_avx2_fma(res: &mut [f64], a: &[f64]) {
 /// Caller must ensure the CPU supports AVX2 (e.g., via `is_x86_feature_detected!("avx2")`);
 #[target_feature(enable = "avx2,fma")]
 pub fn reim_negate_assign_avx2_fma(res: &mut [f64]) {
+
+    // Fewer elements than a whole number of 256-bit vectors (ring degrees below the lane count):
+    // the vector loop below would leave the remainder untouched, so use the scalar kernel.
+    if !res.len().is_multiple_of(4) {
+        return poulpy_cpu_ref::reference::fft64::reim::reim_negate_assign_ref(res);
+    }
     use std::arch::x86_64::{__m256d, _mm256_loadu_pd, _mm256_storeu_pd, _mm256_xor_pd};
 
     let span: usize = res.len() >> 2;
@@ -216,6 +258,12 @@ pub fn reim_addmul_avx2_fma(res: &mut [f64], a: &[f64], b: &[f64]) {
     {
         assert_eq!(a.len(), res.len());
         assert_eq!(b.len(), res.len());
+    }
+
+    // Fewer elements than a whole number of 256-bit vectors (ring degrees below the lane count):
+    // the vector loop below would leave the remainder untouched, so use the scalar kernel.
+    if !(res.len() >> 1).is_multiple_of(4) {
+        return poulpy_cpu_ref::reference::fft64::reim::reim_addmul_ref(res, a, b);
     }
 
     let m: usize = res.len() >> 1;
@@ -270,6 +318,12 @@ pub fn reim_mul_avx2_fma(res: &mut [f64], a: &[f64], b: &[f64]) {
         assert_eq!(b.len(), res.len());
     }
 
+    // Fewer elements than a whole number of 256-bit vectors (ring degrees below the lane count):
+    // the vector loop below would leave the remainder untouched, so use the scalar kernel.
+    if !(res.len() >> 1).is_multiple_of(4) {
+        return poulpy_cpu_ref::reference::fft64::reim::reim_mul_ref(res, a, b);
+    }
+
     let m: usize = res.len() >> 1;
 
     let (rr, ri) = res.split_at_mut(m);
@@ -318,6 +372,12 @@ pub fn reim_mul_assign_avx2_fma(res: &mut [f64], a: &[f64]) {
     #[cfg(debug_assertions)]
     {
         assert_eq!(a.len(), res.len());
+    }
+
+    // Fewer elements than a whole number of 256-bit vectors (ring degrees below the lane count):
+    // the vector loop below would leave the remainder untouched, so use the scalar kernel.
+    if !(res.len() >> 1).is_multiple_of(4) {
+        return poulpy_cpu_ref::reference::fft64::reim::reim_mul_assign_ref(res, a);
     }
 
     let m: usize = res.len() >> 1;
